@@ -26,11 +26,29 @@ const maxSteps = 400
 // ---------------------------------------------------------------------------------------------
 // the configuration family
 
-func timeoutCombos(nvars int, thorough bool) [][]int {
-	if nvars == 1 {
-		return [][]int{{1}, {50}}
+// timeoutCombos: lock timeouts (ms) per shared variable x, y, t: every setting in {1, 50} for the
+// (at most two) variables a configuration uses; unused variables keep the default 50 ms.
+func timeoutCombos(scripts []Script) [][]int {
+	used := usedVars(scripts)
+	var vs []int
+	for v := range varNames {
+		if used[v] {
+			vs = append(vs, v)
+		}
 	}
-	return [][]int{{1, 50}, {50, 1}, {1, 1}, {50, 50}}
+	pats := [][]int{{1, 50}, {50, 1}, {1, 1}, {50, 50}}
+	if len(vs) == 1 {
+		pats = [][]int{{1}, {50}}
+	}
+	var out [][]int
+	for _, p := range pats {
+		to := []int{50, 50, 50}
+		for i, v := range vs {
+			to[v] = p[i%len(p)]
+		}
+		out = append(out, to)
+	}
+	return out
 }
 
 func configs(thorough bool) []Config {
@@ -38,7 +56,7 @@ func configs(thorough bool) []Config {
 	quickCombos := 0 // >0: the quick tier runs only the first n timeout combinations of the next configuration
 	add := func(name string, bound int, inv bool, ctxs ...Script) {
 		nv := usesVars(ctxs)
-		for k, to := range timeoutCombos(nv, thorough) {
+		for k, to := range timeoutCombos(ctxs) {
 			if !thorough && quickCombos > 0 && k >= quickCombos {
 				continue
 			}
@@ -81,6 +99,29 @@ func configs(thorough bool) []Config {
 		add("2x2@pb4:xfer(x,y);read2(x,y)|xfer(y,x);read2(y,x)", 4, true, Script{xfer(x, y), read2(x, y)}, Script{xfer(y, x), read2(y, x)})
 		add("2x2@pb4:rwr(x,y);inc(x)|rwr(y,x);inc(y)", 4, false, Script{rwr(x, y), inc(x)}, Script{rwr(y, x), inc(y)})
 	}
+	// (2b) function-valued shared variable t accessed through Index() (t[k] := v, x := t[k]), two contexts, unbounded
+	idx := func(name string, ctxs ...Script) { add("idx:"+name, -1, false, ctxs...) }
+	idx("iw(1)|iw(1)", Script{iw(1)}, Script{iw(1)})         // indexed write only
+	idx("iw(1)|iw(2)", Script{iw(1)}, Script{iw(2)})         // different elements of one variable
+	idx("iinc(1)|iinc(1)", Script{iinc(1)}, Script{iinc(1)}) // increment of one element (lost update)
+	idx("iinc(1)|iinc(2)", Script{iinc(1)}, Script{iinc(2)})
+	idx("iinc(1)|iw(1)", Script{iinc(1)}, Script{iw(1)})
+	idx("iw(1)|wt", Script{iw(1)}, Script{wt()})   // indexed write against whole-variable write ...
+	idx("iw(1)|rt", Script{iw(1)}, Script{rt()})   // ... whole-variable read ...
+	idx("iw(1)|rwt", Script{iw(1)}, Script{rwt()}) // ... whole-variable read-modify-write
+	idx("iinc(1)|wt", Script{iinc(1)}, Script{wt()})
+	idx("iinc(2)|rt", Script{iinc(2)}, Script{rt()})
+	// an indexed write followed by an abort of that section must leave no trace
+	idx("iwA(1)|rt", Script{iwA(1)}, Script{rt()}) // body: await FALSE after the write
+	idx("iwA(1)|iinc(1)", Script{iwA(1)}, Script{iinc(1)})
+	idx("iwA(1)|iinc(2)", Script{iwA(1)}, Script{iinc(2)})
+	idx("iwx(1)|xir(1)", Script{iwx(1)}, Script{xir(1)}) // lock timeout on x, held by the other context, after the indexed write
+	idx("iwx(2)|inc(x);ir(2)", Script{iwx(2)}, Script{inc(x), ir(2)})
+	// a committed indexed write must survive another sharer's aborted whole-variable write
+	idx("iw(1);ir(1)|wtA", Script{iw(1), ir(1)}, Script{wtA()}) // the other sharer aborts by await FALSE
+	idx("iinc(1);ir(1)|wtA", Script{iinc(1), ir(1)}, Script{wtA()})
+	idx("iw(1);xir(1)|wtx", Script{iw(1), xir(1)}, Script{wtx()})   // the other sharer aborts by lock timeout on x
+	idx("iw(1);ir(1)|iwA(2)", Script{iw(1), ir(1)}, Script{iwA(2)}) // ... and another sharer's aborted indexed write
 	// (3) three contexts, preemption bound 2 (thorough: then 3)
 	bounds := []int{2}
 	if thorough {
@@ -93,6 +134,8 @@ func configs(thorough bool) []Config {
 		add(p+"cp(x,y)|cp(y,x)|blind(x)", b, false, Script{cp(x, y)}, Script{cp(y, x)}, Script{blind(x)})
 		add(p+"inc(x);inc(y)|inc(y);inc(x)|read2(y,x)", b, false, Script{inc(x), inc(y)}, Script{inc(y), inc(x)}, Script{read2(y, x)})
 		add(p+"rwr(x,y)|wr(x)|rr(y)", b, false, Script{rwr(x, y)}, Script{wr(x)}, Script{rr(y)})
+		add(p+"iw(1)|wtA|ir(1)", b, false, Script{iw(1)}, Script{wtA()}, Script{ir(1)})
+		add(p+"iwA(1)|iinc(1)|rt", b, false, Script{iwA(1)}, Script{iinc(1)}, Script{rt()})
 	}
 	return out
 }
@@ -127,7 +170,7 @@ func build(cfg Config, s *bubble.Sched) *world {
 		if v < len(cfg.TimeoutMs) {
 			to = cfg.TimeoutMs[v]
 		}
-		w.mgrs = append(w.mgrs, resources.NewLocalSharedManager(tla.MakeNumber(initial[v]),
+		w.mgrs = append(w.mgrs, resources.NewLocalSharedManager(initialValue(v),
 			resources.WithLocalSharedResourceTimeout(time.Duration(to)*time.Millisecond)))
 	}
 	for i, script := range cfg.Ctxs {
@@ -179,20 +222,42 @@ func build(cfg Config, s *bubble.Sched) *world {
 	return w
 }
 
-func (w *world) finalState(nvars int) ([]int32, error) {
-	var out []int32
-	for v := 0; v < nvars; v++ {
+// finalState reads GetState() of every variable the configuration uses through fresh sharers
+// (locations of unused variables keep their initial value).
+func (w *world) finalState(cfg Config) ([]int32, error) {
+	out := append([]int32(nil), initial...)
+	used := usedVars(cfg.Ctxs)
+	for v := range varNames {
+		if !used[v] {
+			continue
+		}
 		b, err := w.mgrs[v].MakeLocalShared().GetState()
 		if err != nil {
 			return nil, err
 		}
-		n, err := decodeState(b)
+		vals, err := decodeState(v, b)
 		if err != nil {
 			return nil, err
 		}
-		out = append(out, n)
+		for i, l := range locsOf(v) {
+			out[l] = vals[i]
+		}
 	}
 	return out, nil
+}
+
+func usedVars(scripts []Script) map[int]bool {
+	used := map[int]bool{}
+	for _, sc := range scripts {
+		for _, sec := range sc {
+			for _, o := range sec {
+				if o.K != "A" {
+					used[o.V] = true
+				}
+			}
+		}
+	}
+	return used
 }
 
 func execute(t *testing.T, cfg Config, c bubble.Chooser, strict bool) execOut {
@@ -246,7 +311,7 @@ func execute(t *testing.T, cfg Config, c bubble.Chooser, strict bool) execOut {
 		if deadlock == "" && !res.capped {
 			// all contexts returned: read the final state through fresh sharers, in a thread of its own
 			// so that a lock that was never released is observed instead of blocking the driver
-			gs := s.Go("getstate", func() { final, finalErr = w.finalState(cfg.NVars) })
+			gs := s.Go("getstate", func() { final, finalErr = w.finalState(cfg) })
 			s.Settle()
 			s.Grant(gs)
 			s.Settle()
@@ -728,7 +793,7 @@ func TestRaceBodies(t *testing.T) {
 	seen := map[string]bool{}
 	for _, cfg := range configs(false) {
 		key := fmt.Sprint(cfg.Ctxs)
-		if seen[key] || cfg.TimeoutMs[0] != 1 { // scripts once, with the short timeout (more aborts)
+		if seen[key] || (cfg.TimeoutMs[0] != 1 && cfg.TimeoutMs[2] != 1) { // scripts once, with a short timeout (more aborts)
 			continue
 		}
 		seen[key] = true
@@ -762,7 +827,7 @@ func TestRaceBodies(t *testing.T) {
 				bad++
 				continue
 			}
-			if _, err := w.finalState(cfg.NVars); err != nil {
+			if _, err := w.finalState(cfg); err != nil {
 				bad++
 			}
 			n++
